@@ -2,8 +2,8 @@ package main
 
 import (
 	"fmt"
-	"math/rand"
 	"os"
+	"sync"
 
 	"verifharness/internal/gitcli"
 	"verifharness/internal/rep"
@@ -107,53 +107,78 @@ func c17(args []string) error {
 	w := newSMWorld(names)
 	r := rep.New()
 	bs := smBackends(rep.Thorough())
-	rnd := rand.New(rand.NewSource(rep.Seed()))
-	for hi, h := range hs {
-		for bi, be := range bs {
-			// memory + plain filesystem always; the option variants on a seeded half of the histories
-			if bi >= 2 && !rep.Thorough() && rnd.Intn(2) == 0 {
-				continue
-			}
-			r.Eval(1)
-			s, reopen, cleanup, err := be.mk(w, h.Init)
-			if err != nil {
-				cleanup()
-				return fmt.Errorf("backend %s init: %v", be.name, err)
-			}
-			cs := func(i int) map[string]any {
-				return map[string]any{"backend": be.name, "init": h.Init, "steps": h.Steps[:i+1]}
-			}
-			ok := true
-			if c, d := w.compare(s, h.Init); c != "" {
-				r.Diverge(backendClass(be.name)+"|init|"+c+"|"+d, "initial state read-back differs from the model", cs(-1))
-				ok = false
-			}
-			for i := 0; ok && i < len(h.Steps); i++ {
-				st := h.Steps[i]
-				got := w.apply(s, st)
-				if got != st.Res {
-					r.Diverge(backendClass(be.name)+"|"+st.Op+"|result|want="+st.Res+",got="+got,
-						fmt.Sprintf("%s on %s returned %s, the abstract repository says %s", st.Op, be.name, got, st.Res), cs(i))
-					ok = false
-					break
+	// histories are independent: replay them on several workers (the report is shared under a lock)
+	var mu sync.Mutex
+	workers := 4
+	if rep.Thorough() {
+		workers = 8
+	}
+	seed := uint64(rep.Seed())
+	var firstErr error
+	var wg sync.WaitGroup
+	for wk := 0; wk < workers; wk++ {
+		wg.Add(1)
+		go func(wk int) {
+			defer wg.Done()
+			r := &lockedReport{r: r, mu: &mu}
+			for hi, h := range hs {
+				if hi%workers != wk {
+					continue
 				}
-				if c, d := w.compare(s, st.St); c != "" {
-					r.Diverge(backendClass(be.name)+"|"+st.Op+"="+st.Res+"|"+c+"|"+d,
-						fmt.Sprintf("after %s on %s: %s differs from the abstract repository (%s)", st.Op, be.name, c, d), cs(i))
-					ok = false
+				for bi, be := range bs {
+					// memory + plain filesystem always; the option variants on a seeded half of the histories
+					if bi >= 2 && !rep.Thorough() && ((uint64(hi)*2654435761+uint64(bi)*40503+seed*97)>>5)&1 == 0 {
+						continue
+					}
+					r.Eval(1)
+					s, reopen, cleanup, err := be.mk(w, h.Init)
+					if err != nil {
+						cleanup()
+						mu.Lock()
+						firstErr = fmt.Errorf("backend %s init: %v", be.name, err)
+						mu.Unlock()
+						return
+					}
+					cs := func(i int) map[string]any {
+						return map[string]any{"backend": be.name, "init": h.Init, "steps": h.Steps[:i+1]}
+					}
+					ok := true
+					if c, d := w.compare(s, h.Init); c != "" {
+						r.Diverge(backendClass(be.name)+"|init|"+c+"|"+d, "initial state read-back differs from the model", cs(-1))
+						ok = false
+					}
+					for i := 0; ok && i < len(h.Steps); i++ {
+						st := h.Steps[i]
+						got := w.apply(s, st)
+						if got != st.Res {
+							r.Diverge(backendClass(be.name)+"|"+st.Op+"|result|want="+st.Res+",got="+got,
+								fmt.Sprintf("%s on %s returned %s, the abstract repository says %s", st.Op, be.name, got, st.Res), cs(i))
+							ok = false
+							break
+						}
+						if c, d := w.compare(s, st.St); c != "" {
+							r.Diverge(backendClass(be.name)+"|"+st.Op+"="+st.Res+"|"+c+"|"+d,
+								fmt.Sprintf("after %s on %s: %s differs from the abstract repository (%s)", st.Op, be.name, c, d), cs(i))
+							ok = false
+						}
+					}
+					if ok && reopen != nil && len(h.Steps) > 0 {
+						s2 := reopen()
+						if c, d := w.compare(s2, h.Steps[len(h.Steps)-1].St); c != "" {
+							r.Diverge("filesystem|reopen|"+c+"|"+d, "a fresh storage on the same directory does not see the final state ("+c+" "+d+")", cs(len(h.Steps)-1))
+						}
+					}
+					cleanup()
+				}
+				if hi%500 == 0 {
+					r.Sample(h)
 				}
 			}
-			if ok && reopen != nil && len(h.Steps) > 0 {
-				s2 := reopen()
-				if c, d := w.compare(s2, h.Steps[len(h.Steps)-1].St); c != "" {
-					r.Diverge("filesystem|reopen|"+c+"|"+d, "a fresh storage on the same directory does not see the final state ("+c+" "+d+")", cs(len(h.Steps)-1))
-				}
-			}
-			cleanup()
-		}
-		if hi%500 == 0 {
-			r.Sample(h)
-		}
+		}(wk)
+	}
+	wg.Wait()
+	if firstErr != nil {
+		return firstErr
 	}
 	r.Distinct = len(hs)
 	var bn []string
@@ -162,6 +187,20 @@ func c17(args []string) error {
 	}
 	r.Extra["backends"] = bn
 	return r.Emit()
+}
+
+// lockedReport serialises the report calls of concurrent replay workers.
+type lockedReport struct {
+	r  *rep.Report
+	mu *sync.Mutex
+}
+
+func (l *lockedReport) Eval(n int)   { l.mu.Lock(); l.r.Eval(n); l.mu.Unlock() }
+func (l *lockedReport) Sample(c any) { l.mu.Lock(); l.r.Sample(c); l.mu.Unlock() }
+func (l *lockedReport) Diverge(sig, what string, c any) {
+	l.mu.Lock()
+	l.r.Diverge(sig, what, c)
+	l.mu.Unlock()
 }
 
 // c19: the same histories through transactional storage.
